@@ -763,3 +763,268 @@ func goroutinesGetCopies(c *Ctx, rule string, pkgs []string) {
 		c.Ok(rule, "goroutines-get-copies", 0, fmt.Sprintf("%d goroutine start(s) in methods of lock-carrying structs; none is handed a protected slice or map as it is", n))
 	}
 }
+
+// ---- rediscovery does not depend on what the client believes about the other endpoints ---------------
+//
+// When the primary is unknown or dead, callPrimary's way back is discover() (which also revives
+// endpoints). Whether it runs may depend on the error Primary() gave, on the client's configuration
+// and on the one-shot flags of the loop — not on the topology's current content: gating it on
+// "some endpoint is still alive" removes the only way out of the state in which every endpoint
+// has been marked dead, and writes fail for ever after an outage.
+func rediscoveryUnconditional(c *Ctx, rule string) {
+	p := c.P
+	cp := p.MustMethod("client", "HTTPClient", "callPrimary")
+	disc := p.MustMethod("client", "HTTPClient", "discover")
+	rg := p.RegionOf(cp, 2)
+	calls := rg.Calls(func(k *ssa.CallCommon) bool { return k.StaticCallee() == disc })
+	if len(calls) == 0 {
+		c.Fail(rule, funcName(cp)+":rediscovery", cp.Pos(), "callPrimary never rediscovers the topology")
+		return
+	}
+	topo := p.NamedType("client", "topology")
+	for _, call := range calls {
+		var why []string
+		for _, k := range p.withImplied(rg.Conds(call)) {
+			k.Atom.Has(func(x *Term) bool {
+				if x.Op == "call" && x.Fn != nil && x.Fn.Signature.Recv() != nil && topo != nil && types.Identical(deref(x.Fn.Signature.Recv().Type()), topo) && x.Fn.Name() != "Primary" {
+					why = append(why, k.String())
+				}
+				return false
+			})
+		}
+		c.Check(len(why) == 0, rule, funcName(cp)+":rediscovery", call.in.Pos(), "rediscovery depends only on Primary()'s error, the configuration and the one-shot flags", "rediscovery is attempted only under "+strings.Join(why, " ∧ ")+": once every endpoint is marked dead nothing revives or rediscovers them, and the client never converges on the leader again")
+	}
+}
+
+// ---- finite order model over branch outcomes ------------------------------------------------------------
+//
+// condsHold: the branch outcomes that are comparisons between the given symbols (and integer
+// constants) all hold under env; outcomes about anything else are taken as satisfiable.
+func condsHold(p *Program, cs []Cond, symOf func(*Term) (string, bool), env map[string]int) bool {
+	val := func(t *Term) (int, bool) {
+		t = t.Strip()
+		if s, ok := symOf(t); ok {
+			v, has := env[s]
+			return v, has
+		}
+		if t.Op == "const" {
+			var n int
+			if _, err := fmt.Sscanf(t.Name, "%d", &n); err == nil {
+				return n, true
+			}
+		}
+		if t.Op == "binop" && len(t.Args) == 2 && (t.Name == "+" || t.Name == "-") {
+			if a, ok := symOf(t.Args[0].Strip()); ok && t.Args[1].Op == "const" {
+				var n int
+				if _, err := fmt.Sscanf(t.Args[1].Name, "%d", &n); err == nil {
+					if t.Name == "+" {
+						return env[a] + n, true
+					}
+					return env[a] - n, true
+				}
+			}
+		}
+		return 0, false
+	}
+	for _, k := range p.withImplied(cs) {
+		if k.Atom == nil || (k.Atom.Op != "LT" && k.Atom.Op != "EQ") || len(k.Atom.Args) != 2 {
+			continue
+		}
+		x, okx := val(k.Atom.Args[0])
+		y, oky := val(k.Atom.Args[1])
+		if !okx || !oky {
+			continue
+		}
+		got := x < y
+		if k.Atom.Op == "EQ" {
+			got = x == y
+		}
+		if got != k.Pol {
+			return false
+		}
+	}
+	return true
+}
+
+// pathsThrough: the entry→exit paths of loop-free fn that execute `at`.
+func (p *Program) pathsThrough(fn *ssa.Function, at ssa.Instruction) ([]*Path, bool) {
+	paths, ok := p.EnumPaths(fn, 4000)
+	if !ok {
+		return nil, false
+	}
+	var out []*Path
+	for _, pa := range paths {
+		for _, b := range pa.Blocks {
+			if b == at.Block() {
+				out = append(out, pa)
+				break
+			}
+		}
+	}
+	return out, true
+}
+
+// factsBefore: the branch outcomes of the path taken before reaching `at` (outcomes of branches after it say
+// nothing about whether it is reached).
+func (pa *Path) factsBefore(at ssa.Instruction) []Cond {
+	var out []Cond
+	i := 0
+	for _, b := range pa.Blocks {
+		if b == at.Block() {
+			break
+		}
+		if blockIf(b) != nil {
+			if c, isC := pa.resolve(blockIf(b).Cond).(*ssa.Const); isC {
+				_ = c
+				continue // constant-folded branch: EnumPaths recorded no fact for it
+			}
+			if i < len(pa.Facts) {
+				out = append(out, pa.Facts[i])
+			}
+			i++
+		}
+	}
+	return out
+}
+
+// ---- every consistency request inside the log's range reaches the prover -----------------------------------
+//
+// The incremental handler hands (Start, End) of a decoded request to QueryConsistency, which owns
+// the range check. Whatever the handler tests about the two versions before that call must be
+// satisfiable for every pair Start <= End (decided on all orderings of small integers): a guard
+// that turns away a legitimate pair — (0,0), a monitor's first batch of one snapshot — leaves
+// that pair without a proof.
+func consistencyRequestsAdmitted(c *Ctx, rule string) {
+	p := c.P
+	var h *ssa.Function
+	for _, rh := range registeredHandlers(p) {
+		if rh.path == "/proofs/incremental" {
+			h = rh.fn
+		}
+	}
+	if h == nil {
+		c.Fail(rule, "incremental-handler:admits", 0, "the /proofs/incremental handler is not registered")
+		return
+	}
+	name := funcName(h) + ":admits"
+	var call ssa.Instruction
+	for _, in := range callsIn(h, func(k *ssa.CallCommon) bool { return k.IsInvoke() && k.Method.Name() == "QueryConsistency" }) {
+		call = in
+	}
+	if call == nil {
+		c.Fail(rule, name, h.Pos(), "the handler does not call QueryConsistency itself")
+		return
+	}
+	cc := callCommon(call)
+	sT, eT := p.TermOf(cc.Args[0]).Strip().String(), p.TermOf(cc.Args[1]).Strip().String()
+	symOf := func(t *Term) (string, bool) {
+		switch t.String() {
+		case sT:
+			return "S", true
+		case eT:
+			return "E", true
+		}
+		return "", false
+	}
+	paths, ok := p.pathsThrough(h, call)
+	if !ok || len(paths) == 0 {
+		c.Fail(rule, name, h.Pos(), "the handler is not loop-free (or never reaches QueryConsistency): admission is not decided")
+		return
+	}
+	var missing []string
+	for s := 0; s <= 2; s++ {
+		for e := s; e <= 2; e++ {
+			env := map[string]int{"S": s, "E": e}
+			admitted := false
+			for _, pa := range paths {
+				if condsHold(p, pa.factsBefore(call), symOf, env) {
+					admitted = true
+					break
+				}
+			}
+			if !admitted {
+				missing = append(missing, fmt.Sprintf("(Start=%d, End=%d)", s, e))
+			}
+		}
+	}
+	c.Check(len(missing) == 0, rule, name, call.Pos(), fmt.Sprintf("%d path(s) to QueryConsistency; every pair Start<=End of the order model reaches it", len(paths)), "the handler turns away "+strings.Join(missing, ", ")+" before QueryConsistency is asked: a legitimate pair inside the log's range gets no consistency proof over HTTP")
+}
+
+// ---- a restarted node accepts its own snapshot -----------------------------------------------------------------
+//
+// On start-up raft hands the node its own latest snapshot (Restore with raft == nil). The snapshot
+// records Balloon.Version() (the next version); the FSM state records the last applied version,
+// so right after a snapshot state = snap-1, and later state >= snap-1. A refusal built in Restore
+// itself (an error constructed there, not the failure of a step) must be infeasible on every such
+// ordering, or the node cannot be reopened on its own data.
+func restoreAcceptsOwnSnapshot(c *Ctx, rule string) {
+	p := c.P
+	restore := p.MustMethod(pkgConsensus, "RaftNode", "Restore")
+	name := funcName(restore) + ":own-snapshot"
+	paths, ok := p.EnumPaths(restore, 4000)
+	if !ok {
+		c.Ok(rule, name, restore.Pos(), "Restore is not loop-free: refusals are not enumerated (no verdict)")
+		return
+	}
+	symOf := func(t *Term) (string, bool) {
+		if t.Op != "field" || t.Name != "BalloonVersion" || len(t.Args) == 0 {
+			return "", false
+		}
+		base := t.Args[0].Strip()
+		if base.IsField("state", isParam(restore, 0)) {
+			return "state", true
+		}
+		if n, ok := namedOf(deref(typeOfTerm(base))); ok && n.Obj().Name() == "fsmSnapshot" {
+			return "snap", true
+		}
+		return "", false
+	}
+	var why []string
+	seen := map[string]bool{}
+	nRef := 0
+	for _, pa := range paths {
+		if pa.Ret == nil || len(pa.Ret.Results) == 0 {
+			continue
+		}
+		rv := pa.resolveDeep(RetVal(pa.Ret, len(pa.Ret.Results)-1))
+		call, isCall := rv.(*ssa.Call)
+		if !isCall || call.Call.StaticCallee() == nil || call.Call.StaticCallee().Pkg == nil {
+			continue
+		}
+		if pk := call.Call.StaticCallee().Pkg.Pkg.Path(); pk != "fmt" && pk != "errors" {
+			continue
+		}
+		nRef++
+		for snap := 0; snap <= 3; snap++ {
+			for st := 0; st <= 3; st++ {
+				if st+1 < snap {
+					continue
+				}
+				if condsHold(p, pa.Facts, symOf, map[string]int{"state": st, "snap": snap}) && mentionsBoth(p, pa.Facts, symOf) {
+					d := fmt.Sprintf("with applied version %d and a snapshot recording next version %d Restore refuses (%s)", st, snap, p.pos(call.Pos()))
+					if !seen[p.pos(call.Pos())] {
+						seen[p.pos(call.Pos())] = true
+						why = append(why, d)
+					}
+				}
+			}
+		}
+	}
+	c.Check(len(why) == 0, rule, name, restore.Pos(), fmt.Sprintf("%d refusal(s) constructed in Restore; none is feasible for a node reading its own snapshot (state >= snap-1)", nRef), strings.Join(why, "; ")+": the snapshot stores the next version, the FSM state the last applied one — a node stopped right after a snapshot cannot be reopened")
+}
+
+func mentionsBoth(p *Program, cs []Cond, symOf func(*Term) (string, bool)) bool {
+	got := map[string]bool{}
+	for _, k := range cs {
+		if k.Atom == nil {
+			continue
+		}
+		k.Atom.Has(func(x *Term) bool {
+			if s, ok := symOf(x.Strip()); ok {
+				got[s] = true
+			}
+			return false
+		})
+	}
+	return got["state"] && got["snap"]
+}
